@@ -3,7 +3,8 @@
 Proof: Lean theorems over ALL label lists of the labelled transition system in
 `lean/Kopf/Model/C20_Lifecycle.lean` (root tasks of `spawn_tasks`, phases of `run_tasks` and of
 `startup_cleanup_activities`, the core task, the orchestrator's ensemble tasks, workers, daemons and their exit
-stoppers). Time passes only through `delay`, which is ALWAYS enabled; a run is COOPERATIVE when each of its delays
+stoppers; the orchestrator's exit is TWO sequential stops since /repo 26a293c: the streams first, the keep-alives — whose finally
+withdraws the peering record — after the last of them has ended). Time passes only through `delay`, which is ALWAYS enabled; a run is COOPERATIVE when each of its delays
 satisfies `coopDelay` (nothing instantaneous pending, no deadline overrun) — the theorems about time say so.
 The model of the current tree handles every modelled cancellation of operator() (inside spawn_tasks, while run_tasks waits,
 while it stops the root tasks — every live root task is then cancelled AGAIN —, while it waits for the hung tasks); the
@@ -39,12 +40,15 @@ TIE = ("T: the facts that select the model variant — the orchestrator's done-c
        "gathers and cancels its requests; a root task (the stop-flag checker) awaits the core tasks and their errors are re-raised "
        "after the cleanup activity (`coreWatched := true`, since /repo ed52a1a); the daemon killer marks the memories as exiting and "
        "spawn_daemons honours it (since 1d3a667); the orchestrator shields the stop of its ensemble in a loop (`orchShielded := true`, "
-       "since ab6fb15); spawn_tasks stops its tasks when cancelled in its sleep(0) (`spawnSwept := true`, since d6da86b); run_tasks "
+       "since ab6fb15) and, inside that shielded task, stops it IN ORDER: first every task but the pinging ones, then the pinging ones "
+       "(`stop_in_order`, since 26a293c: the model's two segments rootStopping orchestrator / orchStopPingers; one stop of everything or "
+       "the reverse order make stops_pingers_last_eq fail, any other shape is an ExtractError); spawn_tasks stops its tasks when cancelled in its sleep(0) (`spawnSwept := true`, since d6da86b); run_tasks "
        "handles a cancellation while it stops the root tasks (`stopSwept := true`, since 883284c); queueing.watcher re-checks "
        "worker_error after the depletion and raises (`deplEscalates := true`, since 69d1957) — are re-extracted from the AST of "
        "orchestration.py / running.py / scanning.py / daemons.py / queueing.py on every run and proved equal to the model's claims "
        "(Kopf/Tie/C20.lean; Boolean equalities about variant flags, none about `step`); a revert of any of these commits makes a tie "
-       "theorem fail AND its corpus witness fail the oracle (rehearsed for 69d1957, ab6fb15, d6da86b, 883284c); "
+       "theorem fail AND its corpus witness fail the oracle (rehearsed for 69d1957, ab6fb15, d6da86b, 883284c; a revert of 26a293c makes the tie theorem AND the trace tie fail, but no oracle clause: the old "
+       "order was not a violation of C20); "
        "A: whole-operator simulations of the real kopf.operator(); one global order log of the atomic segments of "
        "spawn_tasks/run_tasks/startup_cleanup_activities/orchestrator/watcher/worker/daemon_killer/daemons with virtual times, "
        "replayed by the Lean LTS as a COOPERATIVE run (labels AND the time that may pass between them); the exception in flight at "
@@ -82,6 +86,13 @@ LEVEL_TEXT = (
     "operator is gone within 3(E+W+D) + C + H — the oracle's bound): for COOPERATIVE runs only "
     "(noncooperative_exit_unbounded_witness, model-level, NOT replayed: a real instance is a sync handler blocking in a thread); "
     "peering_withdrawal_attempted_partial (ATTEMPTED, not withdrawn: withdrawal_may_fail_witness, deviation C20-D3). "
+    "FULL, since /repo 26a293c (the orchestrator's exit is two sequential stops; the time bounds above are re-proved on that order: the "
+    "streams within E, the keep-alives cancelled not later than t0 + E and withdrawing within W — still E + W + D): "
+    "withdrawal_after_handling_stopped (once the exiting orchestrator has begun to stop the keep-alives — whose finally is what "
+    "withdraws the record — every watcher and peering observer of the ensemble has ended and no worker of theirs runs; every "
+    "reachable state, unguarded) and exit_stops_keepalives_last (the first stop spares the keep-alives; during the exit a running, "
+    "uncancelled keep-alive stays so under every label but the second stop and its own failure; the second stop is enabled only "
+    "when no stream is alive; the orchestrator does not end before both stops). "
     "WITNESS about the current tree: repeated_cancel_skips_cleanup_witness (deviation C20-D4, by design, replayed: a cancellation "
     "that arrives while operator() is already stopping skips the cleanup handlers; everything else is over before the return). "
     "HISTORICAL witnesses (about OLD code = a variant flag false, not about the tree; their corpus witnesses are replayed on real "
@@ -104,6 +115,7 @@ THEOREMS = [("Kopf.Props.C20", "Kopf.C20." + n) for n in [
     "returns_partial", "no_timelock", "stop_flag_felt_at_once", "cleanup_last", "reraise",
     "no_daemon_alive_at_return", "nothing_alive_at_return", "interrupted_killer_never_meets_cleanup",
     "peering_withdrawal_attempted_partial", "withdrawal_may_fail_witness",
+    "withdrawal_after_handling_stopped", "exit_stops_keepalives_last",
     "worker_failure_reaches_watcher", "worker_failure_stops_all", "exit_bound_partial",
     "noncooperative_exit_unbounded_witness", "failure_to_stop_bound_partial", "stream_failure_stops_all",
     "gone_is_not_a_failure", "core_failure_stops_all", "repaired_never_abandoned", "head_never_abandoned",
@@ -115,7 +127,7 @@ THEOREMS = [("Kopf.Props.C20", "Kopf.C20." + n) for n in [
     "historical_worker_failure_after_gone_keeps_running_witness"]]
 TIE_THEOREMS = [("Kopf.Tie.C20", "Kopf.C20.Tie." + n) for n in [
     "escalates_eq", "head_is_fixed", "ignores_not_found_eq", "restarts_exited_eq", "scan_cancels_children_eq",
-    "watches_core_eq", "head_core_variant", "shields_stop_eq", "head_shield_variant", "sweeps_spawn_eq", "sweeps_stop_eq",
+    "watches_core_eq", "head_core_variant", "shields_stop_eq", "head_shield_variant", "stops_pingers_last_eq", "sweeps_spawn_eq", "sweeps_stop_eq",
     "head_sweep_variant", "escalates_depletion_eq", "head_depletion_variant", "head_handles_cancellations",
     "no_spawn_while_exiting_eq"]]
 RULE = ("seeded lifecycle histories: 0-2 startup handlers (ok / sleeping / temporary with retries / permanent / retries "
@@ -297,6 +309,72 @@ def extract(ctx: Ctx) -> None:
         for h in tnode.handlers:
             if h.type is not None and "CancelledError" in ast.unparse(h.type):
                 shields_stop = shields_stop or (bool(_calls(h, "shield")) and any("aiotasks.stop" in ast.unparse(x) for x in h.body))
+    # (4c) ... and the ORDER inside that shielded task (since /repo 26a293c, `stop_in_order`): first every ensemble task but the
+    #      pinging ones, then the pinging ones — `rootStopping orchestrator` / `orchStopPingers` of the model. Known shapes: ONE
+    #      `aiotasks.stop(<all tasks of the ensemble>)` (the tree before: fact false), or a local coroutine function whose body is
+    #      exactly TWO awaited `aiotasks.stop(...)` in sequence over {the pinging tasks, the rest}, wrapped in the shielded task
+    #      (fact true iff the rest comes first). Anything else is an unknown shape.
+    cancel_handlers = [h for tnode in ast.walk(orch) if isinstance(tnode, ast.Try) for h in tnode.handlers
+                       if h.type is not None and "CancelledError" in ast.unparse(h.type)]
+    if len(cancel_handlers) != 1:
+        raise ExtractError(f"orchestrator has {len(cancel_handlers)} handlers of CancelledError: unknown shape")
+    xh = cancel_handlers[0]
+    exit_stops = [c for c in _calls(xh, "stop") if isinstance(c.func.value, ast.Name) and c.func.value.id == "aiotasks"]
+
+    def _stop_set(call: ast.Call) -> str:
+        """which tasks does this `aiotasks.stop(<name>, …)` stop: 'all' | 'pingers' | 'rest' (everything but the pingers)"""
+        if not call.args or not isinstance(call.args[0], ast.Name):
+            raise ExtractError(f"orchestrator's exit stop has an unknown first argument: {ast.unparse(call)[:80]}")
+        name = call.args[0].id
+        vals = [n.value for n in ast.walk(xh) if isinstance(n, ast.Assign) and any(isinstance(t, ast.Name) and t.id == name for t in n.targets)]
+        if len(vals) != 1:
+            raise ExtractError(f"`{name}` (stopped at the orchestrator's exit) is assigned {len(vals)} times in the handler: unknown shape")
+        v = vals[0]
+        src = ast.unparse(v)
+        if isinstance(v, ast.Call) and isinstance(v.func, ast.Attribute) and v.func.attr == "get_tasks":
+            return "all"
+        if isinstance(v, (ast.SetComp, ast.ListComp)) and len(v.generators) == 1:
+            it = ast.unparse(v.generators[0].iter)
+            conds = v.generators[0].ifs
+            if "pinging_tasks" in it and "get_tasks" not in src:
+                return "pingers"
+            excl = [c for c in conds if isinstance(c, ast.Compare) and len(c.ops) == 1 and isinstance(c.ops[0], ast.NotIn)
+                    and isinstance(c.comparators[0], ast.Name)]
+            if "get_tasks" in it and len(conds) == 1 and len(excl) == 1:
+                # ... `not in <a name that is itself the set of the pinging tasks>`
+                pv = [n.value for n in ast.walk(xh) if isinstance(n, ast.Assign)
+                      and any(isinstance(t, ast.Name) and t.id == excl[0].comparators[0].id for t in n.targets)]
+                if len(pv) == 1 and "pinging_tasks" in ast.unparse(pv[0]) and "get_tasks" not in ast.unparse(pv[0]):
+                    return "rest"
+        raise ExtractError(f"cannot tell which tasks `{name} = {src[:80]}` are: unknown shape")
+
+    if len(exit_stops) == 1:
+        if _stop_set(exit_stops[0]) != "all":
+            raise ExtractError("the orchestrator's single exit stop does not stop all tasks of the ensemble: unknown shape")
+        stops_pingers_last = False
+    elif len(exit_stops) == 2:
+        seqs = [f for f in ast.walk(xh) if isinstance(f, ast.AsyncFunctionDef)
+                and all(any(c is x for x in ast.walk(f)) for c in exit_stops)]
+        if len(seqs) != 1:
+            raise ExtractError("the orchestrator's two exit stops are not inside one local coroutine function: unknown shape")
+        body = [st_ for st_ in seqs[0].body if not (isinstance(st_, ast.Expr) and isinstance(st_.value, ast.Constant))]
+        if not (len(body) == 2 and all(isinstance(st_, ast.Expr) and isinstance(st_.value, ast.Await) and st_.value.value is c
+                                       for st_, c in zip(body, sorted(exit_stops, key=lambda c: c.lineno)))):
+            raise ExtractError(f"`{seqs[0].name}` is not exactly two awaited aiotasks.stop(...) in sequence: unknown shape")
+        # the shielded task runs that function: `create_task(<name>())` in the handler, and that task is what `shield` gets
+        made = [n for n in ast.walk(xh) if isinstance(n, ast.Assign) and isinstance(n.value, ast.Call)
+                and ast.unparse(n.value.func).endswith("create_task") and n.value.args
+                and isinstance(n.value.args[0], ast.Call) and isinstance(n.value.args[0].func, ast.Name)
+                and n.value.args[0].func.id == seqs[0].name]
+        shielded = {ast.unparse(c.args[0]) for c in _calls(xh, "shield") if c.args}
+        if len(made) != 1 or not any(isinstance(t, ast.Name) and t.id in shielded for t in made[0].targets):
+            raise ExtractError(f"`{seqs[0].name}()` is not the task the orchestrator shields at its exit: unknown shape")
+        order = [_stop_set(c) for c in sorted(exit_stops, key=lambda c: c.lineno)]
+        if sorted(order) != ["pingers", "rest"]:
+            raise ExtractError(f"the orchestrator's two exit stops stop {order}: unknown shape")
+        stops_pingers_last = order == ["rest", "pingers"]
+    else:
+        raise ExtractError(f"the orchestrator's CancelledError handler has {len(exit_stops)} aiotasks.stop calls: unknown shape")
     # (5) terminate_redundancies: exited tasks make their key redundant
     term = _find_def(otree, "terminate_redundancies")
     comps = [n for n in ast.walk(term) if isinstance(n, ast.SetComp)]
@@ -391,7 +469,7 @@ def extract(ctx: Ctx) -> None:
         rechecks = rechecks or any(isinstance(st_, ast.If) and "worker_error" in ast.unparse(st_.test)
                                    and any(isinstance(x, ast.Raise) for x in ast.walk(st_)) for st_ in after)
     facts = {"watcherRechecksWorkerError": rechecks, "spawnTasksSweepsOnCancel": spawn_sweeps, "runTasksSweepsOnCancel": stop_sweeps, "killerMarksExiting": marks, "spawnHonoursExiting": honours, "rootTaskAwaitsCore": root_awaits_core, "coreErrorsAfterCleanup": core_after_cleanup,
-             "orchestratorShieldsStop": shields_stop, "attachesDoneCallback": attaches, "callbackCancelsOrchestrator": cancels, "callbackIgnoresNotFound": ignores404,
+             "orchestratorShieldsStop": shields_stop, "orchestratorStopsPingersLast": stops_pingers_last, "attachesDoneCallback": attaches, "callbackCancelsOrchestrator": cancels, "callbackIgnoresNotFound": ignores404,
              "reraisesTaskError": reraises, "doneTasksAreRedundant": done_redundant, "scanGathers": gathers,
              "scanCancelsInFinally": cancels_children, "scanUsesAsCompleted": uses_as_completed}
     ctx.extra["extracted_facts"] = facts
@@ -616,10 +694,16 @@ def abstract(obs: dict, sc: dict | None = None, checker_awaits_core: bool = Fals
                 put("coreEnd", a[1]) if a[0] == "core" else put("rootEnd", a[0], a[1])
         elif kind == "orchStopSubsBegin":
             open_stop_redundant = bool(a[1])
-            if not a[1]:
+            title = a[3] if len(a) > 3 else "streaming"
+            if not a[1] and title == "pinging" and orch_stopping:
+                # the second half of `stop_in_order` (since /repo 26a293c): the streams are over, the keep-alives are cancelled
+                put("orchStopPingers")
+            elif not a[1] and title == "streaming" and not orch_stopping:
                 # `fail` is what the model forces it to be: has a failed ensemble task cancelled the orchestrator? (observed so far)
                 orch_stopping = True
                 put("rootStopping", "orchestrator", orch_err)
+            elif not a[1]:
+                put("unknown:orchStop:" + str(title))       # an exit stop the model does not know (never a default)
             else:                       # terminate_redundancies: tasks of keys no longer served / with an exited task
                 for i in a[2]:
                     if i not in ended_subs:
@@ -857,6 +941,19 @@ def oracle(sc: dict, obs: dict) -> tuple[list[tuple[str, dict]], dict]:
     facts["failures"] = [f[2] + ":" + str(f[3]) for f in failures]
     facts["trigger"] = trig[0][2] if trig else None
 
+    # (an OBSERVATION for the evidence, no clause: the order of the orchestrator's exit since /repo 26a293c — were the keep-alives
+    #  spared while the streams depleted? The order itself is claimed by the model and checked by the trace tie.)
+    exit_stops = [e for e in log if e[1] == "orchStopSubsBegin" and not e[3]]
+    if not exit_stops:
+        facts["exit_order"] = "no-orchestrator-exit"
+    elif len(exit_stops) == 1:
+        facts["exit_order"] = "one-stop-of-everything"
+    elif exit_stops[1][2] == 0:
+        facts["exit_order"] = "two-stops/no-keep-alive"
+    elif exit_stops[1][0] > exit_stops[0][0]:
+        facts["exit_order"] = "two-stops/keep-alives-spared-while-the-streams-depleted"
+    else:
+        facts["exit_order"] = "two-stops/no-stream-to-wait-for"
     # O2 — a failed startup aborts the operator without any API call, and run() raises
     if startup_failed and not any(k in ("flag", "cancel") for _, _, k in trig if _ is not None):
         if apis:
@@ -1462,6 +1559,7 @@ def _evaluate(ctx: Ctx, histories: list[dict], tie: bool = True) -> None:
         for d in (sc.get("shape") or {}).get("daemons", []):
             ctx.count("daemon_mode", d)
         ctx.count("peering", bool(sc.get("peering")))
+        ctx.count("orchestrator_exit_order", str(facts.get("exit_order")))
         for extra in ("timer", "second_kind", "empty_vault"):
             ctx.count(extra, bool((sc.get("shape") or {}).get(extra)))
         ctx.count("daemons_given_up_by_their_stopper", str(len(given_up(obs["log"]))))
